@@ -232,7 +232,7 @@ var (
 
 func loadCorpus() {
 	corpusOnce.Do(func() {
-		bases = baseDocs()
+		bases = append(baseDocs(), sinkFile(nil))
 		ents, _ := corpusFS.ReadDir("corpus")
 		for _, e := range ents {
 			if d, err := corpusFS.ReadFile("corpus/" + e.Name()); err == nil && strings.HasSuffix(e.Name(), ".pdf") {
@@ -247,6 +247,7 @@ func loadCorpus() {
 		corpusList = append(corpusList, dctCorpus("base0", bases[0])...)
 		corpusList = append(corpusList, imageCorpus()...)
 		corpusList = append(corpusList, sinkCorpus()...)
+		corpusList = append(corpusList, inlineCorpus()...)
 		for i, d := range bases {
 			vs := objStmVariants(fmt.Sprintf("base%d", i), d)
 			corpusList = append(corpusList, vs...)
